@@ -672,7 +672,13 @@ func (app *App) Name() string { return app.BaseApp.Name() }
 
 // BeginBlocker application updates every begin block
 func (app *App) BeginBlocker(ctx sdk.Context, req abci.RequestBeginBlock) abci.ResponseBeginBlock {
-	return app.ModuleManager.BeginBlock(ctx, req)
+	// Run the module BeginBlockers on their own (infinite) gas meter instead of the block context's.
+	// baseapp reports the GasUsed of a transaction that is rejected before the ante handler has set up
+	// its gas meter (a message failing ValidateBasic, a panic in an early decorator) from the block
+	// context's meter, i.e. from whatever BeginBlock consumed on it. In the first block after a
+	// restart that includes the capability module's one-off InitMemStore, so a restarted node reported
+	// a different GasUsed (hence LastResultsHash) for such a transaction than a node that never stopped.
+	return app.ModuleManager.BeginBlock(ctx.WithGasMeter(sdk.NewInfiniteGasMeter()), req)
 }
 
 // EndBlocker application updates every end block
